@@ -202,6 +202,10 @@ var c08Pool = []string{
 	`{{.A}}<`, `{{.A}}</`, `<{{.A}}`, `<!{{.A}}`, `<!-{{.A}}`, `<!DOCTYPE {{.A}}>`, `<?xml {{.A}}?>`, `<![CDATA[{{.A}}]]>`, "\x00{{.A}}\xff<\x80{{.B}}>",
 }
 
+// texts that end where a scanner looks ahead: every one of them must be handled at the end of a text node
+var c08Tails = []string{"<", "</", "<a-", "<a:", "<ab-", "<a-b-", "</a-", "<!", "<!-", "<!--", "<!---", "<!-->", "</script", "</scrip", "</SCRIPT", "</style", "</styl", "</title", "</titl",
+	"</textarea", "</textare", "x</script", "</script</script", "</scriptx</script", "</script ", "</title/", "&", "&#", "&#x", "&#60", "&lt", "&amp", " ", "=", " =", "= ", "'", "\"", "a", "a=", "a ", "a='", "-->", "--", "-"}
+
 // names worth executing / looking up / overwriting
 var c08Names = []string{"main", "bad", "worse", "callsbad", "c2", "c3", "c4", "c5", "c6", "c7", "brk", "callsbrk", "r", "p", "q", "t", "blk", "empty", "ws", "nosuch", "h", "X", "Y", ""}
 
@@ -331,6 +335,7 @@ func runC08(c *caseWriter) (string, bool, map[string]int) {
 	emitH([]histOp{N("main"), P(0, `{{range .L}}{{break}}{{end}}`), X(0)})
 	emitH([]histOp{N("main"), P(0, `{{define "bad"}}<a href="{{.U}}{{end}}{{define "c2"}}<b title="{{template "bad" .}}">{{end}}ok`), Y(0, "bad"), Y(0, "c2")})
 	emitH([]histOp{N("main"), P(0, `{{define "bad"}}<a href="{{.U}}{{end}}{{define "callsbad"}}{{template "bad" .}}{{end}}ok`), Y(0, "bad"), Y(0, "callsbad")})
+	emitH([]histOp{N("main"), P(0, `{{define "rec"}}r{{end}}<p>{{template "rec" .}}</p>`), {kind: "S", h: 0, name: "rec"}, {kind: "C", h: 1}, Y(2, "main")})
 	for _, s := range extraSeeds {
 		for _, v := range seedVariants(s) {
 			emitH([]histOp{N("main"), P(0, v), X(0), X(0)})
@@ -350,8 +355,10 @@ func runC08(c *caseWriter) (string, bool, map[string]int) {
 		emit(c, "wf08", k)
 		l := 1
 		if !quick {
-			l = 2
-			if idx < 150 {
+			if idx < 300 {
+				l = 2
+			}
+			if idx < 20 {
 				l = 3
 			}
 		} else if idx < 12 {
@@ -363,6 +370,14 @@ func runC08(c *caseWriter) (string, bool, map[string]int) {
 				emit(c, "esc08", k, s, "0")
 			}
 		})
+		for _, s := range c08Tails {
+			if textOK() {
+				emit(c, "cat08", k, s)
+				emit(c, "esc08", k, s, "0")
+				emit(c, "cat08", k, "x "+s)
+				emit(c, "esc08", k, ">"+s, "0")
+			}
+		}
 		for _, s := range tmplSeeds {
 			if textOK() {
 				emit(c, "cat08", k, s+"</script></title ></TEXTAREA\t>")
@@ -374,7 +389,7 @@ func runC08(c *caseWriter) (string, bool, map[string]int) {
 		"href=", "src=", "title=", "\"", "'", " ", ">", "/>", "/", "x", "&amp;", "&lt", "&#", "&#x3c;", "&lt;/script&gt;", "<!DOCTYPE html>", "<", "</", "<é", "=", "\n", "`", "${", "}", "\x00", "\xff", "a=b", "a-b:c"}
 	nt := 1500
 	if !quick {
-		nt = 60000
+		nt = 40000
 	}
 	for i := 0; i < nt && textOK(); i++ {
 		s := randFrom(frag, 12)
@@ -415,6 +430,18 @@ func runC08(c *caseWriter) (string, bool, map[string]int) {
 			for _, n := range d.names {
 				emitH([]histOp{N("main"), P(0, d.text), {kind: "L", h: 0, name: n}, Y(0, f), X(1), Y(1, n), {kind: "I", h: 1}})
 			}
+		}
+		for _, n1 := range names {
+			// Clone / New / Lookup on a set in which another member has been executed (derived templates exist)
+			emitH([]histOp{N("main"), P(0, d.text), Y(0, n1), {kind: "C", h: 0}, {kind: "L", h: 0, name: n1}, {kind: "C", h: 1}, {kind: "S", h: 0, name: n1}, X(0), {kind: "I", h: 0}})
+		}
+		for _, n1 := range d.names {
+			// replace a defined template by New, clone through the new handle, execute everything in the clone
+			h := []histOp{N("main"), P(0, d.text), {kind: "S", h: 0, name: n1}, {kind: "C", h: 1}, {kind: "C", h: 0}}
+			for _, n2 := range names {
+				h = append(h, Y(2, n2))
+			}
+			emitH(append(h, X(2), X(3), X(1), X(0)))
 		}
 		emitH([]histOp{N("main"), P(0, d.text), {kind: "C", h: 0}, X(1), X(0), P(0, "late"), {kind: "C", h: 0}, X(1)})
 		emitH([]histOp{N("main"), {kind: "Z", h: 0}, P(0, d.text), X(0), X(0)})
